@@ -13,7 +13,7 @@ from sa.props._lib_i import sect, COMPAT, Abstain, BlockRaised, FollowModule, st
 PROPERTY = "C44"
 RULE_KINDS = {
     "tags/distinct-high-bit": "structural", "tags-table/": "structural", "vocab/tables-inverse": "structural", "limits/installed-on-connect": "structural",
-    "sender-cfg/": "structural", "limits-cfg/": "structural",
+    "sender-cfg/": "structural", "limits-cfg/": "structural", "encode-cfg/": "structural",
     # evaluated on enumerated boundary values / step cases / segmentations: bounded evidence (integer ranges and streams are not finite domains)
     "radix/": "bounded", "limits/encoder-matches-prefix-limit": "bounded", "encode/": "bounded", "decode/": "bounded", "tags/encoder-subset-of-decoder": "bounded",
 }
@@ -217,6 +217,20 @@ def check(ctx):
             wire, err = encode(obj)
             ctx.check(err is None and wire == want, "encode/forms", f"{q} | {kind} {obj!r}"[:120],
                       f"_encode({obj!r}) produces {(wire if err is None else err)!r}; the wire format is {want!r}")
+        # floats bit for bit, whatever was encoded before in the same process: values that compare equal but differ in bits (the two zeros), NaNs with
+        # different payloads, and an int / bool equal to a float - each sequence on a fresh process state (remembered answers of memoised helpers forgotten)
+        nan_a, nan_b = struct.unpack("!d", b"\x7f\xf8\0\0\0\0\0\x01")[0], struct.unpack("!d", b"\xff\xf8\0\0\0\0\0\x02")[0]
+        for seq in ((0.0, -0.0), (-0.0, 0.0), (1, 1.0, True), (1.0, 1), (nan_a, nan_b, nan_a), (2.5, 2.5, -2.5)):
+            funcs.reset_caches()
+            bad_f = None
+            for v in seq:
+                wire, err = encode(v)
+                if isinstance(v, float) and (err is not None or wire != tags["FLOAT"] + struct.pack("!d", v)) and bad_f is None:
+                    bad_f = (v, wire if err is None else err)
+            ctx.check(bad_f is None, "encode/float-bits-independent-of-history", f"{q} | sequence {seq!r}"[:110],
+                      bad_f and f"encoding {seq!r} one after the other in one process, {bad_f[0]!r} goes out as {bad_f[1]!r}; its network-order double is "
+                      f"{struct.pack('!d', bad_f[0])!r}: an earlier value that merely compares equal must not decide the bits")
+        funcs.reset_caches()
         for dialect in (b"none", b"pb"):          # every limit and form holds with and without the pb vocabulary
             dn = dialect.decode()
             wire, err = encode(b"x" * (size_limit + 1), dialect)
@@ -268,6 +282,62 @@ def check(ctx):
         f_d = ctx.func(BANANA, "Banana.dataReceived")
 
     # ---- structural: type-byte table agreement and sender shape, on the class with private helpers followed
+    # ---- structural: nothing on the value -> bytes path of floats remembers answers by ==/hash (float equality is coarser than bit identity)
+    with structural(ctx, "encode-cfg/float-path-not-memoised", "encode/float-bits-independent-of-history (bounded)"):
+        from sa.props._lib_i import is_memoiser
+        ncls_f = norm_class(ctx, BANANA, "Banana", keep={n_ for n_ in {m.name for m in banana_cls.body if isinstance(m, ast.FunctionDef)} if not n_.startswith("_")} | {"_encode"})
+        nenc = next((m for m in ncls_f.body if isinstance(m, ast.FunctionDef) and m.name == "_encode"), None)
+        if nenc is None:
+            raise Abstain("_encode not found in the normalised class")
+        obj_p = nenc.args.args[1].arg
+        branches = [st for st in ast.walk(nenc) if isinstance(st, ast.If) and any(isinstance(c, ast.Call) and call_name(c) == "isinstance" and len(c.args) == 2 and src(c.args[0]) == obj_p
+                                                                                 and "float" in src(c.args[1]) for c in ast.walk(st.test))]
+        if not branches:
+            raise Abstain("no isinstance(obj, float) branch in the normalised _encode")
+        top = {st.name: st for st in mod.tree.body if isinstance(st, ast.FunctionDef)}
+        for br in branches:
+            # follow the float itself (by name) into module-level helpers: (helper, names that hold the float there)
+            reached, scopes = [], [(br, {obj_p})]
+            todo, seen_f = [(list(br.body), {obj_p})], set()
+            while todo:
+                nodes, fnames = todo.pop()
+                for c in (y for n_ in nodes for y in ast.walk(n_)):
+                    if isinstance(c, ast.Call) and (call_name(c) or "").startswith("self._"):
+                        raise Abstain(f"private helper {call_name(c)} could not be inlined")
+                    if isinstance(c, ast.Call) and isinstance(c.func, ast.Name) and c.func.id in top:
+                        h = top[c.func.id]
+                        hp = [a_.arg for a_ in h.args.args]
+                        got = {hp[i] for i, a_ in enumerate(c.args) if i < len(hp) and isinstance(a_, ast.Name) and a_.id in fnames}
+                        got |= {k.arg for k in c.keywords if k.arg in hp and isinstance(k.value, ast.Name) and k.value.id in fnames}
+                        memo = [d for d in h.decorator_list if is_memoiser(d)]
+                        if memo and not got:
+                            ctx.note(f"encode-cfg/float-path-not-memoised: {h.name} is memoised but is not handed the float itself ({src(c)}); left to "
+                                     "encode/float-bits-independent-of-history (bounded)")
+                        elif memo or h.name not in seen_f:
+                            ctx.check(not memo, "encode-cfg/float-path-not-memoised", f"twisted.spread.banana.{h.name} | decorator",
+                                      f"{h.name} receives the float on its way to the wire ({src(c)}) and is memoised with @{src(memo[0]) if memo else ''}: remembered answers are "
+                                      "looked up by == and hash, and 0.0 == -0.0 - whichever zero is encoded first fixes the bytes of both")
+                        if got and h.name not in seen_f:
+                            seen_f.add(h.name)
+                            reached.append(h)
+                            scopes.append((h, got))
+                            todo.append(([h], got))
+            # a hand-made table keyed by the value: <table>[v] / .get(v) / .setdefault(v, ...) where v is the float (or a helper's parameter)
+            for scope, names in scopes:
+                body = scope.body if isinstance(scope, ast.If) else [scope]
+                for x in (y for b_ in body for y in ast.walk(b_)):
+                    keyed = None
+                    if isinstance(x, ast.Subscript) and isinstance(x.slice, ast.Name) and x.slice.id in names and not (isinstance(x.value, ast.Name) and x.value.id in names):
+                        keyed = x
+                    if (isinstance(x, ast.Call) and isinstance(x.func, ast.Attribute) and x.func.attr in ("get", "setdefault") and x.args and isinstance(x.args[0], ast.Name)
+                            and x.args[0].id in names):
+                        keyed = x
+                    if keyed is not None:
+                        ctx.check(False, "encode-cfg/float-path-not-memoised", ctx.construct("twisted.spread.banana." + (scope.name if isinstance(scope, ast.FunctionDef) else "Banana._encode"), keyed),
+                                  f"{src(keyed)} looks the float up in a table keyed by the value itself: keys compare by == and hash, so 0.0 and -0.0 share one entry")
+            if not reached:
+                ctx.ok("encode-cfg/float-path-not-memoised", "twisted.spread.banana.Banana._encode | float branch")
+
     with structural(ctx, "tags-table/encoder-subset-of-decoder", "tags/encoder-subset-of-decoder (bounded)"):
         meths_all = {m.name: m for m in banana_cls.body if isinstance(m, ast.FunctionDef)}
 
